@@ -298,6 +298,42 @@ def case_oracle(case, res: ShardResult | None = None):
                         "definition returning one result less: "
                         f"full == sub is {n == sub}, sub == full is {sub == n}",
                         "FunctionDefinition.returns"), info
+        # --- (a3) a second wrapper around the very same buffer: whether it
+        # equals the first is the class's business (identity, by the
+        # documentation), but whatever '==' answers, hash / set / dict must
+        # agree with it - for the wrappers and for the graphs built on them
+        if reuse:
+            try:
+                twins = {i: pt.make_data_wrapper(x.data, shape=x.shape,
+                                                 tags=x.tags, axes=x.axes)
+                         for i, x in reuse.items()}
+                p5 = build_pt(spec, reuse=twins)
+            except Exception as e:  # noqa: BLE001
+                return Failure("build-exception", f"{type(e).__name__}: {e}",
+                               exc_site(e)), info
+            info["data_twins"] = len(twins)
+            a5 = _roots(p5)
+            for x, y, what in [(reuse[i], twins[i], f"data wrapper {i} vs a "
+                                "second wrapper of the same buffer")
+                               for i in reuse] + [
+                                   (a, a5, "graphs over twin data wrappers")]:
+                try:
+                    e1, e2 = (x == y), (y == x)
+                    if e1 != e2:
+                        return Failure("not-symmetric", what,
+                                       type(x).__name__), info
+                    if (x != y) == e1:
+                        return Failure("ne-inconsistent", what,
+                                       type(x).__name__), info
+                    if e1 and hash(x) != hash(y):
+                        return Failure("equal-but-hash-differs", what,
+                                       type(x).__name__), info
+                    if (y in {x}) != e1 or ({x: 1}.get(y) == 1) != e1:
+                        return Failure("not-interchangeable-as-key", what,
+                                       type(x).__name__), info
+                except Exception as e:  # noqa: BLE001
+                    return Failure("equality-exception", f"{what}: "
+                                   f"{type(e).__name__}: {e}", exc_site(e)), info
         # --- (b) single-field mutations
         nodes = [n for n in reflect.topo_order(a)
                  if dataclasses.is_dataclass(n) or isinstance(
@@ -464,6 +500,7 @@ def run_shard(shard: int, nshards: int, seed: int, tier: str) -> ShardResult:
         res.evaluations += 1
         res.count("field_mutations", info["mutations"])
         res.count("fields_without_mutator", info["skipped_fields"])
+        res.count("data_wrapper_twins", info.get("data_twins", 0))
         for k in info["kinds"]:
             res.count("mutated_kind:" + k)
         if info["deep"]:
